@@ -1,16 +1,43 @@
-SOURCES = ['util.cpp', 'String.cpp']
-HARNESS = 'h_c15.cpp'
-ENV = ['vlibc.c']
+GROUPS = [
+    {'name': 'main', 'sources': ['util.cpp', 'String.cpp'], 'harness': 'h_c15.cpp', 'env': ['vlibc.c']},
+    {'name': 'url', 'sources': ['Http.cpp', 'String.cpp'], 'harness': 'h_c15_url.cpp', 'env': ['vlibc.c']},
+    {'name': 'sha', 'sources': ['SHA1.cpp'], 'harness': 'h_c15_sha.cpp', 'env': []},
+]
+
 
 def instances(tier):
+    q = tier == 'quick'
     out = []
     for n in range(0, 10):
         out.append({'entry': 'h_b64_roundtrip', 'params': [n], 'bound': 'every byte array of length %d' % n})
-    for n in range(0, 5 if tier == 'quick' else 6):
+    for n in range(0, 5 if q else 6):
         out.append({'entry': 'h_b64_decode_any', 'params': [n], 'bound': 'every NUL-free text of length %d' % n})
+    for n in range(0, 4 if q else 5):
+        out.append({'entry': 'h_hex_roundtrip', 'params': [n], 'bound': 'every byte array of length %d' % n})
+    for n in range(0, 4 if q else 5):
+        out.append({'entry': 'h_hex_decode_any', 'params': [n, n], 'bound': 'every NUL-free text of length %d' % n})
+    for n in (5, 6, 7, 8, 15, 16, 23, 24, 31):
+        out.append({'entry': 'h_hex_decode_any', 'params': [n, 2], 'bound': 'texts of length %d: hex filler + every 2-byte tail' % n})
+    for n in range(0, 3 if q else 4):
+        for comp in (0, 1):
+            out.append({'group': 'url', 'entry': 'h_url_roundtrip', 'params': [n, comp], 'bound': 'every NUL-free string of length %d, component=%d' % (n, comp)})
+    for n in range(0, 4 if q else 5):
+        out.append({'group': 'url', 'entry': 'h_url_decode_any', 'params': [n], 'bound': 'every NUL-free text of length %d' % n})
+    qs = [(1, 0, 0, 0), (1, 1, 0, 0), (2, 0, 0, 0), (1, 0, 1, 0)] if q else [(1, 0, 0, 0), (1, 1, 0, 0), (2, 0, 0, 0), (1, 2, 0, 0), (2, 1, 0, 0), (1, 0, 1, 0), (1, 1, 1, 0), (1, 0, 1, 1)]
+    for p in qs:
+        out.append({'group': 'url', 'entry': 'h_query_roundtrip', 'params': list(p), 'bound': 'dictionaries with key/value lengths %s, all NUL-free bytes' % (p,)})
+    out.append({'group': 'sha', 'entry': 'h_sha1_lemmas', 'params': [], 'bound': 'all 32-bit x,y,z'})
+    lens = list(range(0, 131)) if not q else [0, 1, 3, 54, 55, 56, 57, 63, 64, 65, 118, 119, 120, 121, 127, 128, 129, 130]
+    for n in lens:
+        out.append({'group': 'sha', 'entry': 'h_sha1_equiv', 'params': [n], 'opts': {'simplify': True, 'samples': 1},
+                    'bound': 'every message of length %d (content symbolic)' % n})
     return out
 
-BOUNDS = {'quick': 'base64 round trip: all byte arrays of length 0..9; decodeBase64: all NUL-free texts of length 0..4',
-          'thorough': 'base64 round trip: all byte arrays of length 0..9; decodeBase64: all NUL-free texts of length 0..5'}
-OUTSIDE = ['arrays longer than 9 bytes', 'texts longer than 5 bytes']
-ASSUMPTIONS = []
+
+BOUNDS = {
+    'quick': 'base64 round trip: all byte arrays of length 0..9; decodeBase64: all NUL-free texts of length 0..4; hex round trip length 0..3, decodeHex all texts of length 0..3 plus every 2-byte tail of filler texts up to length 31; Url encode/decode all strings of length 0..2 (both modes), Url::decode all texts of length 0..3; parseQuery(params(d)) for 1-2 entries with keys/values of 0..2 bytes; SHA-1 == FIPS 180-4 reference for all messages of 18 lengths covering every padding case up to 3 blocks',
+    'thorough': 'as quick with: decodeBase64 texts to length 5, hex to length 4, Url strings to length 3 / decode texts to 4, 8 dictionary shapes, SHA-1 every message length 0..130',
+}
+OUTSIDE = ['arrays/texts longer than the stated lengths', 'SHA-1 messages longer than 130 bytes (4+ blocks)', 'base64 with whitespace inserted inside otherwise valid text beyond what the all-texts enumeration covers (length <= 5)']
+ASSUMPTIONS = ['SHA-1: the reference uses Ch/Maj in xor/and form; h_sha1_lemmas proves these equal to the FIPS 180-4 definitions for all words',
+               'SHA-1 equivalence is decided on AC-normalised terms (flatten/sort/constant-fold of + ^ & |), after which asl and reference digests are the identical term']
